@@ -244,6 +244,11 @@ impl WalkEntry {
         }
     }
 
+    /// Use `meta` as this entry's metadata instead of fetching it on demand.
+    pub fn set_metadata(&self, meta: Metadata) {
+        let _ = self.meta.set(Ok(meta));
+    }
+
     /// Record the starting point (as spelled on the command line) that this
     /// entry was found under.
     #[must_use]
